@@ -141,7 +141,7 @@ func (w *writeOnce) worst() (string, int) {
 type c13Case struct {
 	Proto   string // "" = process default, else the protocol given to Dial: raw | json | pb
 	Budget  int32  // redial attempts: 1, 3 or -1 (unlimited)
-	Secure  bool  // both peers run the secure plugin and every message is marked secure
+	Secure  bool   // both peers run the secure plugin and every message is marked secure
 	SetID   bool
 	Actions []string // kill-idle | kill-during-call | calls | outage-short | outage-exhaust
 	Callers int
